@@ -680,6 +680,7 @@ func Run(tier string) {
 	everyOffset(run, ks, ageBin, root)
 	keygen(run, filepath.Join(bin, "age-keygen"), root)
 	identityFiles(run, ageBin, root)
+	synopsis(run, ageBin, root)
 	run.Finish()
 }
 
